@@ -3,7 +3,7 @@ from . import common as C
 
 MANIFEST = dict(
    technique="Lean 4 proof over store models with caller-visible value graphs (cells for maps / slices / pointees, value-typed aggregate nodes for structs and arrays held by value; reach / ser / deep copy / rebuild / assign) + correspondence: a type-directed generator of Go value graphs drives (i) by-value inputs through Parse / ParseAny / StrictParse of generated schema trees with digests (contents + addresses, spare capacity included) of every cell of the input graph, (ii) typed default / prefault values through random Parse(nil) / deep-mutation histories over families of schemas sharing the value, (iii) pointers through Parse / StrictParse, (iii') the modelled schema language made value-typed / Optional / Nilable / XPtr with a generated pointee through a fresh pointer, the Lean model predicting verdict, same / own pointer and look, the statement evaluated in Lean from schema and pointee alone, (iv) a schema language in which every schema-owned cell is explicit (literals over any with slice / map members, defaults, objects / slices / records / unions embedding them) through Parse - mutate - Parse histories over fresh equal copies of generated inputs, the Lean model predicting verdict, look, aliasing and the state of the schemas",
-   text="For the tree-unrolling clone Graph.copy (maps, slices, pointees and, field by field, structs and arrays; look-equivalent to the code's memoised clone by cloneIso_copy_look): g_copyOK (the deep copy of any graph with value-typed aggregates, to any depth, consists of fresh cells only, looks exactly like the original and writes nothing that existed), g_result_fresh (Parse(nil): everything reachable from the returned default / prefault is fresh), g_assign_frame and g_hist (any interleaving of Parse(nil) calls on a family of schemas and stores of arbitrary contents into cells outside the schema-owned region leaves every default graph, hence every later result, looking the same), g_parse_mutate_parse (Parse(nil), change every scalar of every reachable cell at any nesting and add entries, Parse(nil): same look; no side conditions), g_input_unchanged (Parse of a by-value input graph builds its result in fresh cells for EVERY rewriting of entries — strip, key canonicalisation, coercion — so every cell of the input holds what it held), For EVERY schema-owned cell, not only defaults (Model/Owned.lean: parseS over any / String / literal-over-any / Default / Object strip-loose-strict / Slice / Record / Union, transcribed from validateLiteral, resolveDefault, validateObject, validateSlice, validateRecord): own_parse_ext (Parse of any value with any schema writes nothing that existed), own_result_fresh (every cell of a result was allocated by the call or is a cell of the caller's own input - never a literal member, a default or anything else a schema holds), own_mutate_reach (deep in-place mutation changes no reference), own_hist (ANY history of Parse calls with any schema of a family on newly built equal copies of any input, interleaved with deep mutation of any earlier result: every cell that existed at the start - all the schemas hold and the caller's original inputs - holds bit-for-bit what it held and every result consists of cells allocated since; no hypothesis about where the caller writes), own_hist_schema_look (every literal member / default looks the same and is still owned). The relational half, in the property's own words (Proofs/C15Congr.lean): own_parse_congr (Parse with the same schema in two stores in which every cell the schema holds looks the same, of two inputs that look the same at every depth whatever cells they are made of: the same verdict, and answers that look the same - the cells the two calls allocate are forgotten by ser), copy_look (the deep copy a caller makes looks like the original at every depth), own_hist_same_answer (in ANY history of Parse calls and deep in-place mutations of earlier results, parsing a newly built copy of input i with schema j before and after any further such history gives the same verdict and answers that look the same: mutating a value returned by Parse never changes what a later Parse returns). Parse through a caller's pointer (Proofs/C15Ptr.lean; Graph.parsePtrS / sameV / sameEntriesV = validatePointer / sameValue / sameEntries as on /repo 3302475; Graph.parsePtrP = the same over the four ways a schema is made - value-typed, .Optional(), .Nilable(), XPtr - with defaults not applying to a pointee, literals refusing pointers, Any answering the pointer itself; Graph.wantSame = the second clause in its words, computed from schema and pointee alone: pointer-typed / optional / nilable and the documented answer looks like the pointee -> the same pointer; documented answer differs (strip-mode object given unknown keys) -> a pointer of its own; value-typed -> nothing asked): ptrP_input_unchanged / ptrP_pointee_unchanged (every variant, every schema, accepted or refused: only allocates - the caller's variable, the pointee's graph and every schema cell hold what they held), ptr_same_pointer_full (THE CLAUSE, a theorem for the code as it is, /repo 3302475: pointer-typed / optional / nilable schema with ANY root, objects included, accepted, wantSame = some true, pointee a well-formed any-typed value -> the caller's own pointer comes back; no hypothesis on the model's answer; non-object roots hand back the value they were given (parse_keeps, sameValue), an object's newly built map holds exactly the caller's entries when no key is dropped (fold_obj_all, obj_same_entries, sameEntries)), witness legacy_objptr_own_pointer (validatePointer before 3302475, parsePtrS0: ObjectPtr({a}).Parse(&{a:x}) answered with a pointer of its own - was open: ptr:parse:different-pointer:ZodObject), obj_builds_new (an object's answer is a map allocated by the call), ptr_clauses_exclusive + witness ptr_letter_conflict (a store that left the input unchanged shows through the caller's pointer what it showed: the same pointer can never carry an answer that looks different - why wantSame demands a pointer of its own there), own_ptr_input_unchanged / own_ptr_same_pointer / own_ptr_own_pointer (the lemmas over parsePtrS), witness legacy_ptr_pointee_replaced (the code before e584c0e re-pointed the caller's variable). Witness lit_member_shared (a literal that continues with its declared member hands out the schema's cell; one store through the result and an equal input is refused). The clone (Model/Clone.lean): /repo HEAD has the memoised deepCloneSeen (e9eb0f2) = Graph.cloneIso (the isomorphic image of the reachable graph, total on cyclic values; run by the classes hist and deep): cloneIso_ext, cloneIso_fresh (every cell reachable from the result, to ANY depth, on ANY graph, is new), cloneIso_iso (Proofs/C15Iso.lean: the clone LOOKS LIKE the original at every depth - same shape, keys and leaves, sharing and cycles included - when the memo collected every reachable cell), cloneIso_parse, cloneIso_hist (any interleaving of Parse(nil) and stores of arbitrary contents into cells the schema does not own: the default and every later answer look like the default at every depth; no depth bound), cloneIso_parse_mutate_parse, cloneIso_copy_look (the tree-unrolling Graph.copy that parseS (.dflt) and the g_* / own_* theorems run answers values that look the same as the memoised clone's; they differ in sharing inside one answer only). Witnesses about the clone BEFORE e9eb0f2 (Graph.copy at explicit fuel): legacy_clone_shares_below_fuel, legacy_clone_cyclic_shares. Plus the round-1 theorems over plain node graphs (copyOK, c15_result_fresh, c15_mut_frame, c15_hist; legacy_c15_input_unchanged / legacy_c15_same_pointer are about the write-back of the code before e584c0e and a hard-wired answer: kept as legacy, they tie nothing). Witnesses: bulk_agg_copy_shared (copying struct / array elements by assignment leaves the cells they refer to shared), today_nested_default_shared (one-level copy).",
+   text="For the tree-unrolling clone Graph.copy (maps, slices, pointees and, field by field, structs and arrays; look-equivalent to the code's memoised clone by cloneIso_copy_look): g_copyOK (the deep copy of any graph with value-typed aggregates, to any depth, consists of fresh cells only, looks exactly like the original and writes nothing that existed), g_result_fresh (Parse(nil): everything reachable from the returned default / prefault is fresh), g_assign_frame and g_hist (any interleaving of Parse(nil) calls on a family of schemas and stores of arbitrary contents into cells outside the schema-owned region leaves every default graph, hence every later result, looking the same), g_parse_mutate_parse (Parse(nil), change every scalar of every reachable cell at any nesting and add entries, Parse(nil): same look; no side conditions), g_input_unchanged (Parse of a by-value input graph builds its result in fresh cells for EVERY rewriting of entries — strip, key canonicalisation, coercion — so every cell of the input holds what it held), For EVERY schema-owned cell, not only defaults (Model/Owned.lean: parseS over any / String / literal-over-any / Default / Object strip-loose-strict / Slice / Record / Union, transcribed from validateLiteral, resolveDefault, validateObject, validateSlice, validateRecord): own_parse_ext (Parse of any value with any schema writes nothing that existed), own_result_fresh (every cell of a result was allocated by the call or is a cell of the caller's own input - never a literal member, a default or anything else a schema holds), own_mutate_reach (deep in-place mutation changes no reference), own_hist (ANY history of Parse calls with any schema of a family on newly built equal copies of any input, interleaved with deep mutation of any earlier result: every cell that existed at the start - all the schemas hold and the caller's original inputs - holds bit-for-bit what it held and every result consists of cells allocated since; no hypothesis about where the caller writes), own_hist_schema_look (every literal member / default looks the same and is still owned). The relational half, in the property's own words (Proofs/C15Congr.lean): own_parse_congr (Parse with the same schema in two stores in which every cell the schema holds looks the same, of two inputs that look the same at every depth whatever cells they are made of: the same verdict, and answers that look the same - the cells the two calls allocate are forgotten by ser), copy_look (the deep copy a caller makes looks like the original at every depth), own_hist_same_answer (in ANY history of Parse calls and deep in-place mutations of earlier results, parsing a newly built copy of input i with schema j before and after any further such history gives the same verdict and answers that look the same: mutating a value returned by Parse never changes what a later Parse returns). Parse through a caller's pointer (Proofs/C15Ptr.lean; Graph.parsePtrS / sameV / sameEntriesV = validatePointer / sameValue / sameEntries as on /repo 3302475; Graph.parsePtrP = the same over the four ways a schema is made - value-typed, .Optional(), .Nilable(), XPtr - with defaults not applying to a pointee, literals refusing pointers, Any answering the pointer itself; Graph.wantSame = the second clause in its words, computed from schema and pointee alone: pointer-typed / optional / nilable and the documented answer looks like the pointee -> the same pointer; documented answer differs (strip-mode object given unknown keys) -> a pointer of its own; value-typed -> nothing asked): ptrP_input_unchanged / ptrP_pointee_unchanged (every variant, every schema, accepted or refused: only allocates - the caller's variable, the pointee's graph and every schema cell hold what they held), ptr_same_pointer_full (THE CLAUSE, a theorem for the code as it is, /repo 3302475: pointer-typed / optional / nilable schema with ANY root, objects included, accepted, wantSame = some true, pointee a well-formed any-typed value -> the caller's own pointer comes back; no hypothesis on the model's answer; non-object roots hand back the value they were given (parse_keeps, sameValue), an object's newly built map holds exactly the caller's entries when no key is dropped (fold_obj_all, obj_same_entries, sameEntries)), sameV_refl (round 5: sameValue is an identity test — reflexive on EVERY value: leaves of any content id, and the id of a float is the id of its bit pattern, so NaN of any payload, -0, the infinities; aggregates holding them to the fuel), sameV_leaf_bits, ptr_same_pointer_leaf (AnyPtr / Any().Optional() / .Nilable() given a pointer to a leaf of ANY bits: wantSame = some true and the caller's pointer is the answer), witnesses about sameValue written with == / reflect.Value.Equal (sameVBy goEq, in no theorem about the code): eq_variant_not_refl, eq_variant_conflates_zeros, eq_variant_nan_own_pointer, witness legacy_objptr_own_pointer (validatePointer before 3302475, parsePtrS0: ObjectPtr({a}).Parse(&{a:x}) answered with a pointer of its own - was open: ptr:parse:different-pointer:ZodObject), obj_builds_new (an object's answer is a map allocated by the call), ptr_clauses_exclusive + witness ptr_letter_conflict (a store that left the input unchanged shows through the caller's pointer what it showed: the same pointer can never carry an answer that looks different - why wantSame demands a pointer of its own there), own_ptr_input_unchanged / own_ptr_same_pointer / own_ptr_own_pointer (the lemmas over parsePtrS), witness legacy_ptr_pointee_replaced (the code before e584c0e re-pointed the caller's variable). Witness lit_member_shared (a literal that continues with its declared member hands out the schema's cell; one store through the result and an equal input is refused). The clone (Model/Clone.lean): /repo HEAD has the memoised deepCloneSeen (e9eb0f2) = Graph.cloneIso (the isomorphic image of the reachable graph, total on cyclic values; run by the classes hist and deep): cloneIso_ext, cloneIso_fresh (every cell reachable from the result, to ANY depth, on ANY graph, is new), cloneIso_iso (Proofs/C15Iso.lean: the clone LOOKS LIKE the original at every depth - same shape, keys and leaves, sharing and cycles included - when the memo collected every reachable cell), cloneIso_parse, cloneIso_hist (any interleaving of Parse(nil) and stores of arbitrary contents into cells the schema does not own: the default and every later answer look like the default at every depth; no depth bound), cloneIso_parse_mutate_parse, cloneIso_copy_look (the tree-unrolling Graph.copy that parseS (.dflt) and the g_* / own_* theorems run answers values that look the same as the memoised clone's; they differ in sharing inside one answer only). Witnesses about the clone BEFORE e9eb0f2 (Graph.copy at explicit fuel): legacy_clone_shares_below_fuel, legacy_clone_cyclic_shares. Plus the round-1 theorems over plain node graphs (copyOK, c15_result_fresh, c15_mut_frame, c15_hist; legacy_c15_input_unchanged / legacy_c15_same_pointer are about the write-back of the code before e584c0e and a hard-wired answer: kept as legacy, they tie nothing). Witnesses: bulk_agg_copy_shared (copying struct / array elements by assignment leaves the cells they refer to shared), today_nested_default_shared (one-level copy).",
    note="Run only (no Lean model of the schema type; judged on the implementation by digests / addresses / looks): Optional / Nilable / Prefault / Lazy INSIDE a tree, Struct, Map, Set, Tuple, Array, Intersection, DiscriminatedUnion, key-canonicalising records, StrictParse of by-value inputs - classes val / reparse / hist / ptr / ptr(gen) / ptr(ctor); for ptr* the second clause is evaluated by Graph.wantSameRun on what the answer looks like beside the pointee (nothing left unjudged for a pointer-typed answer; an answer that is no pointer of the caller's type is counted and not judged). Modelled and tied per case (schema and input in the op line): any / String / literal-over-any / Default / Object strip-loose-strict / Slice / Record(String) / Union (classes own, optr), each as value-typed, Optional, Nilable and XPtr at the root for the pointer clause (union roots excepted: what a member does with a *any is outside the model). Prefault is not in GSchema (its value goes through parsing): run only (hist, deep). The g_* / own_* theorems follow graphs to 16 nested levels (the classes val / hist / own build at most 13) and are about Graph.copy; the memoised clone has no depth bound (cloneIso_*). The model of by-value container parsing (`rebuild`) abstracts what each schema type does to entries into an arbitrary function rw; that the real containers only read the input is established per case by the digests, not by translation of the Go code; the val / reparse model columns are therefore not informative (val: rebuild on the encoded graph; reparse: constant). g_hist / cloneIso_hist take the caller's stores to be outside the schema-owned region (discharged for answers by g_result_fresh / cloneIso_parse). The two pointer clauses are read so that they can hold together (notes/C15.md): the input graph is unchanged always; the same pointer is demanded whenever the documented answer looks like what the pointer referred to; when it differs (stripped keys) a pointer of its own is demanded (ptr_clauses_exclusive). own_parse_congr / own_hist_same_answer ask that the inputs look the same at every depth and conclude that the answers look the same to depth 16. Struct fields that are unexported stay shared in a cloned default (limit of deepCloneSeen, not reachable by a caller outside the package). Trusted: Lean kernel, axioms propext/Classical.choice/Quot.sound, the Go harness (reflective generator, digests, mutator, graph encoder).",
    design="DESIGN.md §3.4, §5 C15; notes/C15.md")
 
@@ -30,6 +30,9 @@ THEOREMS = [
     "Gozod.C15.fold_obj_all", "Gozod.C15.find_self", "Gozod.C15.obj_same_entries", "Gozod.C15.own_ptr_same_entries",
     "Gozod.C15.ptr_same_pointer_full", "Gozod.C15.legacy_objptr_own_pointer", "Gozod.C15.obj_builds_new",
     "Gozod.C15.ptr_clauses_exclusive", "Gozod.C15.ptr_letter_conflict",
+    # identity is a matter of bits (round 5): sameValue is reflexive on every value, NaN leaves included; the == variant is not
+    "Gozod.C15.sameV_refl", "Gozod.C15.sameV_refl_leaf", "Gozod.C15.sameV_leaf_bits", "Gozod.C15.ptr_same_pointer_leaf",
+    "Gozod.C15.sameVBy_beq", "Gozod.C15.eq_variant_not_refl", "Gozod.C15.eq_variant_conflates_zeros", "Gozod.C15.eq_variant_nan_own_pointer",
     # the clone with its depth limit explicit; the memoised clone (Model/Clone.lean)
     "Gozod.C15.legacy_clone_shares_below_fuel", "Gozod.C15.legacy_clone_cyclic_shares", "Gozod.C15.cloneIso_ext",
     "Gozod.C15.cloneIso_fresh", "Gozod.C15.cloneIso_result_fresh", "Gozod.C15.cloneIso_parse_mutate",
@@ -167,7 +170,7 @@ def run(res):
         "deep: 5 schema types x {Default, Prefault} x {chains of 20-48 nested any-typed containers, self-referential map / slice, rings of 2-5 cells, lassos, diamonds} x histories "
         "P M0@k P + random M<j>@<k> / P on the family with k around the clone's limit (31-34), at the end of the spine and beyond one turn of a cycle; iterative uncapped walkers. "
         "val inputs hand members over through pointers below the top level (map values / fields / elements that are *[]T, *map, *struct; Struct[Box], Slice[*Rule]). "
-        "ptr(ctor): every exported XxxPtr constructor of package types (listed from the source by go/ast, 108) x every accepted value of a 70-value pool through a fresh pointer, Parse and StrictParse. "
+        "ptr(ctor): every exported XxxPtr constructor of package types (listed from the source by go/ast, 108) x every accepted value of a 70-value pool through a fresh pointer, Parse and StrictParse. ptr / ptr(ctor) pools end with pointees chosen adversarially for EQUALITY (eqvals.go: NaN in 3 bit patterns, -0 / +0, +-Inf, float32 / complex, arrays, comparable and non-comparable structs, interface-typed members, containers holding them) + 16 schema instances over those types; optr pointees carry such float leaves at every position; every float leaf of the type-directed generator (val / hist / ptr(gen)) is drawn from storex.FloatLeaves; digests, looks and content ids are bit-precise for NaN (storex.FloatRepr). "
         "ptr / dflt / reparse: the round-1 classes over storex.Probes(). distinct = distinct op bodies (graph shapes × histories).")
     # the same-pointer clause quantifies over every pointer-typed constructor: the harness lists them from the source (go/ast)
     st = data[3] if isinstance(data, (list, tuple)) and len(data) > 3 and isinstance(data[3], dict) else {}
